@@ -29,7 +29,14 @@ def handle : Handler
     match unhexStr cwd, unhexStr path, unhexStr search, unhexStr d, files.mapM unhexStr with
     | some cwd, some path, some search, some d, some files =>
       some (outOpt hexStr
-        (sharedData (fun p => files.contains (normpath (join cwd [p]))) [(search, d)] path))
+        (sharedData (fun p => files.contains (normpath (join cwd [p]))) [(search, .dir d)] path))
+    | _, _, _, _, _ => some badArgs
+  -- sdmpkg <package dir> <path> <search_path> <package_path> <existing file>...   (one package export)
+  | "sdmpkg", cwd :: path :: search :: pp :: files =>
+    match unhexStr cwd, unhexStr path, unhexStr search, unhexStr pp, files.mapM unhexStr with
+    | some cwd, some path, some search, some pp, some files =>
+      some (outOpt hexStr
+        (sharedData (fun p => files.contains (normpath (join cwd [p]))) [(search, .pkg pp)] path))
     | _, _, _, _, _ => some badArgs
   | "secure", [s] =>
     match unhexStr s with
